@@ -271,6 +271,10 @@ def run(ctx: Ctx, tier: str) -> Result:
             if not any(isinstance(x, ast.Attribute) and isinstance(x.value, ast.Name) and x.value.id == f.params[0] for x in tgts if f.params):
                 continue
             n_st += 1
+            if any(isinstance(a_, ast.ExceptHandler) for a_ in p.ancestors(n, stop=f.node)):
+                res.fail(Finding("C09.F", f.qname, n, f.loc(n), "a handler stores a stand-in value into state kept between sends (`%s`): after one failing send every later "
+                                 "snapshot is sent with the stand-in (e.g. without credentials) although the cause has gone" % norm(n)[:60]))
+                continue
             after = [(s_, e_) for s_, e_ in g.unguarded_sites(f) if not paths.within(p, s_.node, n) and paths.dominates(p, n, s_.node, f)]
             if after:
                 s_, e_ = after[0]
@@ -297,6 +301,19 @@ def run(ctx: Ctx, tier: str) -> Result:
     else:
         res.fail(Finding("C09.D", submit.qname, "<check open before pool.submit>", submit.loc(),
                          "work submitted after close is not refused (no raising open-check dominating pool.submit)"))
+
+    # the refusal is visible to whoever hands work over: it leaves push_snapshot (nobody on the way swallows it)
+    refusal = [tok for tok in g.escape_tokens(submit) if tok.endswith("IllegalStateException")]
+    if refusal:
+        for c in calls_to(ctx, push, TH + ".submit_task"):
+            ct_ = g.catching_try(c, push, refusal[0])
+            if ct_ is not None and not g.reraises(ct_[1]):
+                res.fail(Finding("C09.D", push.qname, c, push.loc(c), "the refusal of a closed handler (%s) is caught where the snapshot is handed over: work offered after closing "
+                                 "is dropped silently instead of being refused visibly" % refusal[0].rsplit(".", 1)[-1]))
+            else:
+                res.ok("C09.D", {"refusal leaves push_snapshot": push.loc(c)})
+    else:
+        res.fail(Finding("C09.D", submit.qname, "<raise IllegalStateException>", submit.loc(), "submit_task raises no refusal of its own"))
 
     # ---------------- E
     th = p.cls(TH)
